@@ -52,6 +52,17 @@ class LocalDefs:
             return None
         return v.c[0]
 
+    def binding_map(self):
+        """decl id -> node to substitute: single-definition locals by their initialiser; reference locals always by
+        what they were bound to (whatever is done through them)"""
+        out = {}
+        for d, vd in self.decl.items():
+            if (vd.get("t") or "").rstrip().endswith("&") and vd.c:
+                out[d] = vd.c[0]
+            else:
+                out[d] = self.single_def(d)
+        return out
+
     def all_defs(self, d):
         """every expression whose value may flow into local d (initialiser + assigned right-hand sides)"""
         out = []
